@@ -212,7 +212,7 @@ fn code_blob(which: u64) -> &'static [u8] {
     &blobs[(which as usize) % blobs.len()]
 }
 
-pub const INPUT_CLASSES: &[&str] = &["empty", "const", "periodic", "random", "mixed", "text", "code", "counter", "incomp_then_comp", "far_repeat", "zero", "lowent", "copies", "sandwich"];
+pub const INPUT_CLASSES: &[&str] = &["empty", "const", "periodic", "random", "mixed", "text", "code", "counter", "incomp_then_comp", "far_repeat", "zero", "lowent", "copies", "sandwich", "x86soup"];
 
 impl InputSpec {
     pub fn new(class: &str, len: usize, seed: u64) -> Self {
@@ -300,6 +300,21 @@ impl InputSpec {
                 let off = if blob.len() > n { (self.p2 as usize) % (blob.len() - n) } else { 0 };
                 for (i, b) in out.iter_mut().enumerate() {
                     *b = blob[(off + i) % blob.len()];
+                }
+            }
+            "x86soup" => {
+                // E8/E9 opcode bytes in clusters, operands whose top byte is 00 or FF, two-byte
+                // jumps (0F 8x): everything the x86 BCJ filter keeps state about, densely packed
+                for b in out.iter_mut() {
+                    *b = match rng.below(20) {
+                        0..=5 => 0xE8,
+                        6 | 7 => 0xE9,
+                        8..=11 => 0x00,
+                        12..=14 => 0xFF,
+                        15 => 0x0F,
+                        16 => 0x80 + rng.below(16) as u8,
+                        _ => rng.next_u64() as u8,
+                    };
                 }
             }
             "sandwich" => {
